@@ -49,9 +49,9 @@ inductive CExpr where
   | mk (head : CAtom) (tail : CTail)
 inductive CTail where
   | nil
-  | cons (o : BOp) (a : CAtom) (t : CTail)
+  | cons (o : BOp) (sp : Str) (a : CAtom) (t : CTail)    -- `sp`: the operator as spelled
 inductive CAtom where
-  | mk (neg : Bool) (p : CPrim)
+  | mk (neg : Option Str) (p : CPrim)                     -- the negation as spelled, if any
 inductive CPrim where
   | leaf (l : Leaf)
   | paren (e : CExpr)
@@ -100,44 +100,50 @@ def kwGroup (kw : Str) (them : Leaf) (vars : Str → Leaf) (s : Str) : Option (L
       | some (v, r') => some (vars v, r')
       | none => none
 
+/-- `n_of_them | n_of_vars` -/
+def countGroup (s : Str) : Option (Leaf × Str) :=
+  match countTok s with
+  | none => none
+  | some (d, r) =>
+    match ofThem r with
+    | some r' => some (Leaf.nOfThem d, r')
+    | none =>
+      match ofVars r with
+      | some (v, r') => some (Leaf.nOfVars d v, r')
+      | none => none
+
+/-- `group`, ordered choice -/
+def groupTok (s : Str) : Option (Leaf × Str) :=
+  match countGroup s with
+  | some x => some x
+  | none =>
+    match kwGroup "all".toList .allOfThem .allOfVars s with
+    | some x => some x
+    | none =>
+      match kwGroup "any".toList .anyOfThem .anyOfVars s with
+      | some x => some x
+      | none => kwGroup "none".toList .noneOfThem .noneOfVars s
+
 /-- `ident = _{ var | group }` -/
 def leafTok (s : Str) : Option (Leaf × Str) :=
   match varTok s with
   | some (v, r) => some (.var v, r)
-  | none =>
-    -- n_of_them | n_of_vars
-    match (match countTok s with
-           | none => none
-           | some (d, r) =>
-             match ofThem r with
-             | some r' => some (Leaf.nOfThem d, r')
-             | none =>
-               match ofVars r with
-               | some (v, r') => some (Leaf.nOfVars d v, r')
-               | none => none) with
-    | some x => some x
-    | none =>
-      match kwGroup "all".toList .allOfThem .allOfVars s with
-      | some x => some x
-      | none =>
-        match kwGroup "any".toList .anyOfThem .anyOfVars s with
-        | some x => some x
-        | none => kwGroup "none".toList .noneOfThem .noneOfVars s
+  | none => groupTok s
 
 /-- `negate = { "!" | "not" }` -/
-def negTok : Str → Option Str
-  | '!' :: r => some r
-  | 'n' :: 'o' :: 't' :: r => some r
+def negTok : Str → Option (Str × Str)
+  | '!' :: r => some (['!'], r)
+  | 'n' :: 'o' :: 't' :: r => some (['n', 'o', 't'], r)
   | _ => none
 
 /-- `op = _{ or | and }` -/
-def bopTok : Str → Option (BOp × Str)
-  | 'o' :: 'r' :: r => some (.or, r)
-  | 'O' :: 'R' :: r => some (.or, r)
-  | '|' :: '|' :: r => some (.or, r)
-  | 'a' :: 'n' :: 'd' :: r => some (.and, r)
-  | 'A' :: 'N' :: 'D' :: r => some (.and, r)
-  | '&' :: '&' :: r => some (.and, r)
+def bopTok : Str → Option (BOp × Str × Str)
+  | 'o' :: 'r' :: r => some (.or, ['o', 'r'], r)
+  | 'O' :: 'R' :: r => some (.or, ['O', 'R'], r)
+  | '|' :: '|' :: r => some (.or, ['|', '|'], r)
+  | 'a' :: 'n' :: 'd' :: r => some (.and, ['a', 'n', 'd'], r)
+  | 'A' :: 'N' :: 'D' :: r => some (.and, ['A', 'N', 'D'], r)
+  | '&' :: '&' :: r => some (.and, ['&', '&'], r)
   | _ => none
 
 /-! ### recursive descent (fuel bounds the number of nested calls; `4·|s| + 8` always suffices) -/
@@ -157,25 +163,25 @@ def parseTail : Nat → Str → CTail × Str
   | f+1, s =>
     match bopTok (skipWs s) with
     | none => (.nil, s)
-    | some (o, r) =>
+    | some (o, sp, r) =>
       match parseAtom f (skipWs r) with
       | none => (.nil, s)
       | some (a, r') =>
         match parseTail f r' with
-        | (t, r'') => (.cons o a t, r'')
+        | (t, r'') => (.cons o sp a t, r'')
 
 /-- `atom = _{ negate? ~ primary }` -/
 def parseAtom : Nat → Str → Option (CAtom × Str)
   | 0, _ => none
   | f+1, s =>
     match negTok s with
-    | some r =>
+    | some (sp, r) =>
       match parsePrimary f (skipWs r) with
-      | some (p, r') => some (.mk true p, r')
+      | some (p, r') => some (.mk (some sp) p, r')
       | none => none
     | none =>
       match parsePrimary f s with
-      | some (p, r') => some (.mk false p, r')
+      | some (p, r') => some (.mk none p, r')
       | none => none
 
 /-- `primary = _{ ident | "(" ~ expr ~ ")" }` -/
@@ -267,7 +273,7 @@ def leafExpr : Leaf → Expr
 
 def tailLen : CTail → Nat
   | .nil => 0
-  | .cons _ _ t => tailLen t + 1
+  | .cons _ _ _ t => tailLen t + 1
 
 -- `parse_expr`: map primaries recursively, then Pratt at this level
 mutual
@@ -281,14 +287,14 @@ def astE : CExpr → Option Expr
     | _, _ => none
 def astT : CTail → Option (List Tok)
   | .nil => some []
-  | .cons o a t =>
+  | .cons o _ a t =>
     match astA a, astT t with
     | some at', some tt => some (.op o :: (at' ++ tt))
     | _, _ => none
 def astA : CAtom → Option (List Tok)
   | .mk n p =>
     match astP p with
-    | some e => some ((if n then [Tok.neg] else []) ++ [Tok.prim e])
+    | some e => some ((if n.isSome then [Tok.neg] else []) ++ [Tok.prim e])
     | none => none
 def astP : CPrim → Option Expr
   | .leaf l => some (leafExpr l)
